@@ -277,7 +277,14 @@ def predictor_model(prog, tmids, span, rphases, polys):
     cols = {"tmid": NdArr((len(tmids),), [Num(t / Hz, kind="time") for t in tmids]), "span": Num(span / Hz, kind="quantity"),
             "rphase": NdArr((len(rphases),), [Num(r) for r in rphases]), "poly": ListV(list(polys))}
     pred = ObjV(prog.cls("PhasePredictor"), {"_intervals": NONE})
-    pred.attrs["__getitem__"] = PyFuncV(lambda ev_, a, k, fr_, nd: cols[a[0].s], "column")
+    def item(ev_, a, k, fr_, nd):
+        if isinstance(a[0], StrV):
+            return cols[a[0].s]                 # a column
+        row = DictV()                           # a row: the same cells, addressed the other way round
+        for name, col in cols.items():
+            row.d[name] = col if (isinstance(col, Num) and not col.shape) else ev_.getitem(col, a[0], fr_, nd)
+        return row
+    pred.attrs["__getitem__"] = PyFuncV(item, "column or row")
     pred.attrs["__len__"] = len(tmids)
     return pred
 
